@@ -324,6 +324,7 @@ class ConsumerWorld(ClientWorld):
         self.first_fetch_seen = False
         self.delivered = []
         self.start_epoch_step = self.step
+        self.consec_failures = 0  # start() begins a fresh retry sequence
         self.epoch += 0
         rec = [ci, 0, None, self.step, None, None, False]
         self.start_results.append(rec)
@@ -687,6 +688,8 @@ class ConsumerWorld(ClientWorld):
     def note_request_result(self, name, res):
         from twisted.internet.defer import CancelledError
         from twisted.python.failure import Failure
+        if name == "send_offset_commit_request" and self.PROP in ("C14", "C12"):
+            return  # commits have their own attempt counter and delay; C14's words are about the fetch path
         if isinstance(res, Failure):
             if res.check(CancelledError) and (self.stop_step is not None):
                 return
